@@ -36,6 +36,9 @@ def draw_value(rng, mag):
         return rng.choice([2 ** 31 + rng.randint(0, 9), -(2 ** 31) - rng.randint(1, 9), 2 ** 40 + rng.randint(0, 3), 3])
     if mag == "hugeint":
         return rng.choice([2 ** 60 + rng.randint(1, 9), -(2 ** 55) - rng.randint(1, 9), 2 ** 53 + 1, rng.randint(0, 9)])
+    if mag == "int63":
+        # each value fits a signed 64-bit cell, sums of two same-sign ones do not
+        return rng.choice([2 ** 62 + rng.randint(0, 9), -(2 ** 62) - rng.randint(0, 9), 2 ** 62, rng.randint(0, 9)])
     if mag == "huge":
         return rng.choice([float(2 ** 63) * rng.randint(1, 4), -float(2 ** 64), 1.5, 7])
     if mag == "inf":
